@@ -226,6 +226,31 @@ def json_agreement(prog, rep):
         props = sch.get("properties", {})
         oks = set(sch.get("required", [])) <= set(FIELDS) and props.get("timestamp", {}).get("type") == "string" and props.get("timestamp", {}).get("format") == "date-time" and props.get("duration", {}).get("type") == "number" and props.get("data", {}).get("type") == "object" and sch.get("type") == "object"
         rep.check(oks, "JSON", "schemas/event.json", "schema vs emitted types", "string/date-time, number, object", f"the published schema ({ {k: v for k, v in props.items()} }, required {sch.get('required')}) no longer matches what to_json_dict emits", "aw_core/schemas/event.json")
+        # every key the model can emit must be admitted with every JSON type the model allows for it
+        mi = prog.module("aw_core.models")
+        id_alias = norm(mi.consts["Id"]) if "Id" in mi.consts else ""
+        id_types = set()
+        if "int" in id_alias:
+            id_types.add("integer")
+        if "str" in id_alias:
+            id_types.add("string")
+        if "Optional" in id_alias or "None" in id_alias:
+            id_types.add("null")
+        emitted = {"id": id_types or {"integer", "string", "null"}, "timestamp": {"string"}, "duration": {"number"}, "data": {"object"}}
+        for k, need in emitted.items():
+            decl = props.get(k)
+            if decl is None:
+                rep.check(sch.get("additionalProperties", True) is not False, "JSON", "schemas/event.json", f"key {k}", "not declared, additional properties allowed", f"the schema forbids additional properties but does not declare `{k}`, which every serialised event carries", "aw_core/schemas/event.json")
+                continue
+            ty = decl.get("type")
+            have = set(ty if isinstance(ty, list) else [ty]) if ty is not None else None
+            if have is not None and "number" in have:
+                have.add("integer")
+            okk = have is None or need <= have
+            rep.check(okk, "JSON", "schemas/event.json", f"key {k}", f"admits {sorted(need)}", f"the schema restricts `{k}` to {sorted(have or [])} but the model ({'Id = ' + id_alias if k == 'id' else 'to_json_dict'}) emits {sorted(need)}: the JSON form of such an event no longer validates against the published schema", "aw_core/schemas/event.json", expected=sorted(need), found=sorted(have or []))
+            extra = sorted(set(decl) - {"type", "format", "description", "title", "default", "examples", "$comment"})
+            if extra:
+                rep.undecided("JSON", "schemas/event.json", f"key {k}", f"the schema constrains `{k}` with {extra}, which this analysis does not relate to the values the model emits", "aw_core/schemas/event.json")
     except Exception as e:
         rep.error(f"anchor vanished: aw_core/schemas/event.json ({e})")
     eq = prog.func("Event.__eq__")
@@ -265,6 +290,8 @@ VARIANTS = [
     ("B init bypasses the setter", M, "            self.timestamp = _timestamp_parse(timestamp)", '            self["timestamp"] = timestamp', "ONE-WRITER"),
     ("B numbers stored as milliseconds", M, 'self["duration"] = timedelta(seconds=duration)', 'self["duration"] = timedelta(milliseconds=duration)', "DURATION"),
     ("B other types accepted silently", M, '            raise TypeError(f"Couldn\'t parse duration of invalid type {type(duration)}")', '            self["duration"] = timedelta(0)', "DURATION"),
+    ("B schema restricts id to integers (the model allows strings)", "aw_core/schemas/event.json", '\t"properties": {\n', '\t"properties": {\n\t\t"id": {"type": ["integer", "null"]},\n', "JSON"),
+    ("OK schema documents id with every type the model allows", "aw_core/schemas/event.json", '\t"properties": {\n', '\t"properties": {\n\t\t"id": {"type": ["integer", "string", "null"]},\n', "ok"),
     ("B duration emitted as string", M, 'json_data["duration"] = self.duration.total_seconds()', 'json_data["duration"] = str(self.duration.total_seconds())', "JSON"),
     ("B timestamp emitted in local zone", M, 'json_data["timestamp"] = self.timestamp.astimezone(timezone.utc).isoformat()', 'json_data["timestamp"] = self.timestamp.astimezone().isoformat()', "JSON"),
     ("B equality ignores data", M, "                and self.data == other.data\n", "", "JSON"),
